@@ -13,6 +13,7 @@ import enum
 import functools
 import hashlib
 import inspect
+import os
 import sys
 import types
 
@@ -68,6 +69,9 @@ class SourceIndex:
 
     def note_used(self, module, qualname, node):
         path = self.paths[module.__name__]
+        root = os.environ.get("PYVC_REPO", "/repo").rstrip("/") + "/"
+        if path.startswith(root):
+            path = path[len(root):]
         key = f"{path}::{qualname}"
         if key not in self.used:
             seg = ast.get_source_segment(self.mods[module.__name__][1], node) or ""
